@@ -151,6 +151,12 @@ def r6_consumption(ctx, res):
     r3_backoff(ctx, res)
 
 
+def r7_union_keeps_every_entity(ctx, res):
+    """the Wordnet finds the UNION of what the proposed (pos, form) pairs find: duplicates are removed by entity, never by public
+    id (two installed versions share ids) - the de-duplication analysis of C09-R4."""
+    from .c09 import r4_dedupe
+    r4_dedupe(ctx, res)
+
 RULES = [
     ('C17-R1', r1_provenance, 3),
     ('C17-R2', r2_no_full_suppletion, 2),
@@ -158,4 +164,5 @@ RULES = [
     ('C17-R4', r4_initialisation, 1),
     ('C17-R5', r5_dispatch, 2),
     ('C17-R6', r6_consumption, 10),
+    ('C17-R7', r7_union_keeps_every_entity, 2),
 ]
